@@ -21,7 +21,7 @@ theorem effects_private : effects.all (fun e => e.root.all privatePart) = true :
 /-- [C06, C07, C13] the sort helpers are built from `slices.Clone` / `make` only -/
 theorem sort_helpers_fresh :
     (effects.filter (fun e => e.kind == "fieldInit:*evaluator.sortByString" || e.kind == "fieldInit:*evaluator.sortByNumber")).all
-      (fun e => e.root.all (fun p => p.1 == "fresh" || p.1 == "makeSlice")) = true := by decide
+      (fun e => e.root.all (fun p => p.1 == "fresh" || p.1 == "makeSlice" || p.1 == "const")) = true := by decide
 
 /-- [C06, C07] package-level state consists of error sentinels and one byte-slice constant, all written during init only
     (`effects_private` accepts stores to globals only with the `initGlobal` tag) -/
@@ -50,14 +50,41 @@ def privateArg (p : String × String) : Bool :=
     itself allocated, or the callee is one of a short list of read-only library functions -/
 theorem extcalls_safe : extCalls.all (fun e => readOnlyCallee e.kind || e.root.all privateArg) = true := by decide
 
-/-- [C13] the only library functions `sort_by` hands its (cloned) array to are `slices.Clone` and `sort.Stable`: the
-    order of elements with equal keys is the stable one at every length -/
+/-- sorting functions of the standard library -/
+def isSortCall (k : String) : Bool :=
+  ["extcall:sort.Sort", "extcall:sort.Stable", "extcall:sort.Slice", "extcall:sort.SliceStable", "extcall:sort.Strings",
+   "extcall:sort.Ints", "extcall:sort.Float64s", "extcall:slices.Sort", "extcall:slices.SortFunc",
+   "extcall:slices.SortStableFunc"].contains k
+
+/-- [C13] whatever `sort_by` sorts with (in `sortArrayBy` or in helpers it calls) is a stable sort, and it does sort:
+    the order of elements with equal keys is the original one at every length -/
 theorem sort_by_is_stable :
-    ((extCalls.filter (fun e => e.fn == "(*evaluator.evaluator).sortArrayBy")).all
-        (fun e => e.kind == "extcall:reflect.TypeOf" || e.kind == "extcall:slices.Clone" || e.kind == "extcall:sort.Stable")
-     && extCalls.any (fun e => e.fn == "(*evaluator.evaluator).sortArrayBy" && e.kind == "extcall:sort.Stable")
-     && (effects.filter (fun e => e.fn == "(*evaluator.evaluator).sortArrayBy")).all
-        (fun e => e.kind == "store" || e.kind == "append" || e.kind == "inplace:sort.Stable"
-          || e.kind == "fieldInit:*evaluator.sortByNumber" || e.kind == "fieldInit:*evaluator.sortByString")) = true := by decide
+    ((extCalls.filter (fun e => reachFromSortBy.contains e.fn && isSortCall e.kind)).all
+        (fun e => e.kind == "extcall:sort.Stable" || e.kind == "extcall:sort.SliceStable" || e.kind == "extcall:slices.SortStableFunc")
+     && extCalls.any (fun e => reachFromSortBy.contains e.fn && isSortCall e.kind)) = true := by decide
+
+def reaches (ep callee : String) : Bool :=
+  entryReach.any (fun r => r.1 == ep && r.2.1.contains callee)
+
+/-- [C06, C08] the four entry points, through whatever private helpers of the root package: one-shot `Search` runs
+    `parser.Parse` and `evaluator.Evaluate`; `Compile` and `MustCompile` run `parser.Parse` and never the evaluator;
+    `(*Expression).Search` runs `evaluator.Evaluate` and never the parser; only `MustCompile` can panic in the root
+    package's own code -/
+theorem entry_point_calls :
+    (reaches "jmespath.Search" "parser.Parse" && reaches "jmespath.Search" "evaluator.Evaluate"
+     && reaches "jmespath.Compile" "parser.Parse" && !reaches "jmespath.Compile" "evaluator.Evaluate"
+     && reaches "jmespath.MustCompile" "parser.Parse" && !reaches "jmespath.MustCompile" "evaluator.Evaluate"
+     && reaches "(*jmespath.Expression).Search" "evaluator.Evaluate" && !reaches "(*jmespath.Expression).Search" "parser.Parse"
+     && entryReach.all (fun r => r.2.2 == (r.1 == "jmespath.MustCompile")) && entryReach.length == 4) = true := by decide
+
+/-- [C08] every (value, error) return of the root package: a non-nil error comes with the literal nil value and is
+    produced by one of the two mapping functions (or is handed on unchanged from another function of the package that
+    obeys the same rule) -/
+theorem error_returns_nil_result :
+    pairReturns.all (fun r =>
+      let resK := r.2.1; let resA := r.2.2.1; let errK := r.2.2.2.1; let errA := r.2.2.2.2
+      errK == "nil"
+      || (resK == "nil" && ((errK == "call" && (errA == "parseError" || errA == "evaluateError")) || errK == "delegate1"))
+      || (resK == "delegate0" && errK == "delegate1" && resA == errA)) = true := by decide
 
 end Jmes.Tie
